@@ -104,6 +104,10 @@ class Lane:
     # never yields to the event loop cannot be seen by the virtual clock). Only for lanes whose property is
     # termination; CPU time, not wall time, so machine load cannot trip it.
     cpu_limit: float | None = None
+    # Wall-clock seconds after which a case counts as "the call under test blocks for ever" (e.g. a synchronous handler
+    # stuck in a system call: the virtual clock never advances and no CPU is burnt). Only for lanes that run entirely under
+    # the virtual clock, where a normal case takes milliseconds of real time; generous, so that machine load cannot trip it.
+    wall_limit: float | None = None
 
 
 def load_prop(pid: str):
@@ -132,28 +136,38 @@ class _Found(Exception):
     pass
 
 
-class _Spinning(BaseException):
-    pass
+class _Spinning(KeyboardInterrupt):
+    """Raised by the per-case watchdog. A KeyboardInterrupt subclass: asyncio and the fake transports let it through
+    instead of treating it as an error of the callback that happened to be running."""
 
 
 def guarded_run(lane: "Lane", case) -> Verdict:
-    if not lane.cpu_limit:
+    if not lane.cpu_limit and not lane.wall_limit:
         return lane.run_case(case)
     import signal
 
     def on_alarm(signum, frame):
-        raise _Spinning()
+        raise _Spinning("cpu" if signum == signal.SIGVTALRM else "wall")
 
     old = signal.signal(signal.SIGVTALRM, on_alarm)
-    signal.setitimer(signal.ITIMER_VIRTUAL, lane.cpu_limit)
+    old_r = signal.signal(signal.SIGALRM, on_alarm)
+    if lane.cpu_limit:
+        signal.setitimer(signal.ITIMER_VIRTUAL, lane.cpu_limit)
+    if lane.wall_limit:
+        signal.setitimer(signal.ITIMER_REAL, lane.wall_limit)
     try:
         return lane.run_case(case)
-    except _Spinning:
+    except _Spinning as sp:
+        if sp.args and sp.args[0] == "wall":
+            return viol("did-not-terminate", f"the case did not finish within {lane.wall_limit:.0f} s of real time although it runs under a "
+                        "virtual clock (normal cases take milliseconds): the call under test blocks without returning")
         return viol("did-not-terminate", f"the case burnt {lane.cpu_limit:.0f} s of CPU without finishing (normal cases take "
                     "milliseconds): the call under test spins without returning")
     finally:
         signal.setitimer(signal.ITIMER_VIRTUAL, 0)
+        signal.setitimer(signal.ITIMER_REAL, 0)
         signal.signal(signal.SIGVTALRM, old)
+        signal.signal(signal.SIGALRM, old_r)
 
 
 def run_shard(args) -> dict:
